@@ -41,6 +41,18 @@ claimed = {
  "C09": dict(cat="exploration", ref="5/C09",
    text="Seeded handler programs over the real Response / flushResponse code, wire bytes decoded by net/http as independent client and compared with a reference model of the handler's intent; write sizes target the 64 KiB flush threshold; a separate quarter of the batch injects transport write failures with a narrowly relaxed oracle.",
    tech="seeded operation-sequence search with transport fault injection, reference model of handler intent + independent decoder"),
+ "C11": dict(cat="exploration", ref="5/C11",
+   text="Ownership-tracking allocator (never recycles, poisons on Free, quarantines) installed at the public allocator seam while seeded HTTP handler programs, WebSocket round trips, byzantine frame sequences, corrupted request streams and limit scenarios run with transport failures; flags double free, use/append after free, foreign free, write after free and poison on the wire. Single-threaded: close races are out of reach of this check.",
+   tech="deterministic simulation with transport fault injection and an ownership-tracking allocator as runtime oracle"),
+ "C12": dict(cat="exploration", ref="5/C12",
+   text="Two real websocket.Conn endpoints joined by the simulated transport; seeded message sequences over all length classes, content kinds, roles, compression levels and frame-size limits; the wire is judged by an independent frame codec and delivered in enumerated single cuts (small cases), seeded multi-cuts or fixed read sizes; receiver log must equal sender log.",
+   tech="deterministic simulation of the transport (segmentation enumeration/sampling, write failures) with an independent frame codec as oracle"),
+ "C13": dict(cat="exploration", ref="5/C13",
+   text="Byzantine peer: seeded frame sequences over the header space with spliced-in violations, in random segmentation, judged by an executable reference validator written from RFC 6455; latitude points of the RFC assert nothing.",
+   tech="deterministic simulation of a byzantine peer against an executable RFC 6455 reference validator"),
+ "C15": dict(cat="exploration", ref="5/C15",
+   text="Limits drawn small; single frames, all fragment partition classes and permessage-deflate bombs straddling the limit, control frames around 125 bytes, trickled giant lengths; besides delivery and 1009 answers the tracking allocator measures the bytes actually buffered, which catches limits enforced only after inflating.",
+   tech="deterministic simulation of a hostile peer with allocator-side measurement of buffered bytes"),
  "C17": dict(cat="exploration", ref="5/C17",
    text="Exact backlog accounting from the simulated kernel's side (accepted buffer bytes minus bytes the kernel took) compared after every call with nbio's decision (accept / ErrOverflow) and with its internal counter; fill/drain cycles and sizes around the bound are generated.",
    tech="deterministic simulation: kernel-side ground-truth accounting vs implementation decisions under seeded acceptance patterns"),
